@@ -420,6 +420,23 @@ func runC10(r *Run) {
 					}
 					err = e
 				} else {
+					if conc == 0 && int(termDelay/time.Millisecond)%2 == 0 {
+						// the peer starts reading again at the worst moment: after the
+						// connection has been marked closed because of this call's context and
+						// before the transport is closed, so that the transport takes the rest
+						// of the frame after all. The call was cancelled while it was blocked:
+						// it must still report an error.
+						r.ForceYield("close.flagged")
+						r.S.Go("resumer", func() {
+							r.S.ParkE("a.resumer", func() bool { return r.YieldSeenLocked("close.flagged") > 0 || progDone }, nil)
+							if !progDone {
+								paused = false
+								rc.Lib.Out().Cap = 1 << 30
+								r.S.Kick()
+								r.S.Count("probe.peer-resumes-between-closed-flag-and-transport-close")
+							}
+						})
+					}
 					err = c.Write(ctx, websocket.MessageBinary, Payload{Kind: 2, Len: 40000, Seed: 3}.Bytes())
 				}
 			default:
@@ -446,6 +463,12 @@ func runC10(r *Run) {
 				if !inIO {
 					r.S.Count("probe.cancel-during-not-in-io")
 					return
+				}
+				// (the goroutine that closes the connection because of the context may
+				// still stand between marking it closed and closing the transport when
+				// the cancelled call returns: it gets a moment of simulated time)
+				if !rc.Lib.Closed() {
+					r.S.Sleep(100 * time.Millisecond)
 				}
 				if !rc.Lib.Closed() {
 					r.Violate("connection-not-closed-after-cancel", s2, "context ended while %s was blocked in transport I/O, the call failed with %v but the connection was not closed", c10Ops[termKind], err)
